@@ -106,6 +106,12 @@ def default_outside(version):
 
 def conversation(kind, version):
     """-> (server specs per TCP connection, client kwargs, entry)"""
+    if kind == 'negotiate_gone':
+        # the server stops in the middle of the status conversation and is
+        # then gone altogether: the documented fallback connection is
+        # refused - that failure is the error to report
+        specs, kw, entry = conversation('negotiate', version)
+        return specs[:1], kw, entry
     if kind.endswith('+prior'):
         # the same conversation on a Connection object that has already been
         # through a session: a negotiating connect() whose status query was
@@ -198,7 +204,8 @@ def run(kind, version, cut_link, cut_n, plan, select_fail=None):
         if prior else []
     # extra connections (fallback) get a fresh copy of the last spec
     world = vnet.World(servers=pre + list(srvs),
-                       default=lambda addr: _extra(srvs, specs), plan=plan)
+                       default=(lambda addr: _extra(srvs, specs))
+                       if kind != 'negotiate_gone' else 'refuse', plan=plan)
     if select_fail:
         world.select_fail = (select_fail[0],
                              SELECT_ERRORS[select_fail[1]]())
@@ -319,6 +326,17 @@ def cut_case(ctx, case):
     # H3: outcome
     normal = n >= N
     reported = bool(o.exceptions)
+    if kind == 'negotiate_gone':
+        # whatever was received, the next connection (fallback or login) is
+        # refused: that is reported, never swallowed
+        if not reported:
+            ctx.fail('cut', 'H3-silent', case,
+                     'no error reported although the follow-up connection '
+                     'was refused; exits=%d' % o.exits, 'an error')
+        ctx.label('outcome_follow_up_connection_refused')
+        if inside:
+            ctx.nt(kind, version, li, n, repr(plan))
+        return
     if normal:
         if reported:
             ctx.fail('cut', 'H3-normal-outcome', case,
@@ -408,14 +426,15 @@ def cut_points(ends, N, quick):
 
 
 def t_conv(ctx, kind, version, shard, nshards, quick):
-    nlinks = 2 if kind.startswith('negotiate') else 1
+    nlinks = 2 if kind.startswith('negotiate') and \
+        kind != 'negotiate_gone' else 1
     plans = ['whole', 'one', [3, 1, 7, 2, 50]]
     if kind.endswith('+prior'):
         plans = ['whole']
     work = []
     for li in range(nlinks):
         ends, N, full = boundaries(kind, version, li)
-        if full['o'].exceptions and li == 0:
+        if full['o'].exceptions and li == 0 and kind != 'negotiate_gone':
             ctx.fail('cut', 'H3-normal-outcome',
                      {'kind': kind, 'version': version, 'link': li, 'n': N},
                      repr(full['o'].exceptions[0][0]), 'no error')
@@ -497,7 +516,8 @@ def tasks(tier):
                 tl.append(('%s_%d_%d' % (kind, v, s), t_conv,
                            dict(kind=kind, version=v, shard=s, nshards=ns,
                                 quick=q)))
-    for kind in ('status+prior', 'negotiate+prior', 'negotiate_out+prior'):
+    for kind in ('status+prior', 'negotiate+prior', 'negotiate_out+prior',
+                 'negotiate_gone'):
         for v in (PROTOCOLS[::2] if q else PROTOCOLS):
             tl.append(('%s_%d' % (kind, v), t_conv,
                        dict(kind=kind, version=v, shard=0, nshards=1,
